@@ -57,6 +57,8 @@ pub enum Ev {
     Start { wid: usize, inc: u32, key: Key, id: u32 },
     End { wid: usize, inc: u32, key: Key, id: u32, how: How },
     Discard { reason: String, id: u32 },
+    /// a discard reported to the handler that had been replaced through UpdateSettings
+    StaleDiscard { reason: String, id: u32 },
     Completed { id: u32 },
     /// an armed kill (see `Discards`) has taken full effect: the worker is Stopped
     WorkerGone { wid: usize },
@@ -179,6 +181,14 @@ impl WorkerBuilder<TW, ()> for Builder {
         };
         self.0.log(Ev::Built { wid, inc });
         (TW { world: self.0.clone(), inc }, ())
+    }
+}
+
+/// the handler the factory starts with when Cfg::late_handler is set; it is replaced before the first event
+struct ReplacedDiscards(World);
+impl DiscardHandler<Key, JobMsg> for ReplacedDiscards {
+    fn discard(&self, reason: DiscardReason, job: &mut Job<Key, JobMsg>) {
+        self.0.log(Ev::StaleDiscard { reason: format!("{reason:?}"), id: job.msg.id });
     }
 }
 
@@ -329,6 +339,9 @@ pub struct Cfg {
     pub script: Option<&'static str>,
     /// the history may tell an idle worker to stop "slowly" (it lingers in post_stop)
     pub slow_stops: bool,
+    /// the factory starts with a discard handler that is replaced through UpdateSettings before the first
+    /// event; whatever is discarded afterwards must reach the new one
+    pub late_handler: bool,
 }
 
 impl Cfg {
@@ -343,7 +356,7 @@ impl Cfg {
             (true, false) => "/lean",
             _ => "",
         };
-        format!("{:?}/{:?}/w{}/d{}{}{mode}{q}{}{}", self.routing, self.discard, self.workers, self.depth, if self.ttl { "/ttl" } else { "" }, if self.set_limit { "/setlimit" } else { "" }, if self.flow_only { "/flow3keys".to_string() } else if self.fine_deaths { "/fine-deaths".to_string() } else if let Some(s) = self.script { format!("/script-{}", s.replace(',', "-")) } else if self.slow_stops { "/slow-stops".to_string() } else { String::new() }).replace(['(', ')'], "")
+        format!("{:?}/{:?}/w{}/d{}{}{mode}{q}{}{}", self.routing, self.discard, self.workers, self.depth, if self.ttl { "/ttl" } else { "" }, if self.set_limit { "/setlimit" } else { "" }, if self.flow_only { "/flow3keys".to_string() } else if self.fine_deaths { "/fine-deaths".to_string() } else if let Some(s) = self.script { format!("/script-{}", s.replace(',', "-")) } else if self.slow_stops { "/slow-stops".to_string() } else if self.late_handler { "/handler-replaced".to_string() } else { String::new() }).replace(['(', ')'], "")
     }
     pub fn factory_queueing(&self) -> bool {
         matches!(self.routing, Routing::Sticky | Routing::Queuer | Routing::RlQueuer)
@@ -393,7 +406,7 @@ async fn spawn_factory_q<R: Router<Key, JobMsg>, Q: Queue<Key, JobMsg>>(router: 
         .num_initial_workers(cfg.workers)
         .router(router)
         .queue(queue)
-        .discard_handler(Arc::new(Discards(world.clone())))
+        .discard_handler(if cfg.late_handler { Arc::new(ReplacedDiscards(world.clone())) as Arc<dyn DiscardHandler<Key, JobMsg>> } else { Arc::new(Discards(world.clone())) })
         .discard_settings(discard_settings)
         .lifecycle_hooks(Box::new(Hooks(world.clone())))
         .stats(Arc::new(Stats(world.clone())))
@@ -488,6 +501,11 @@ pub async fn run(cfg: Cfg) -> Run {
     vsched::explore_schedules(false);
     let (f, fh) = spawn_for(cfg, &world).await;
     vsched::quiesce();
+    if cfg.late_handler {
+        let h: Arc<dyn DiscardHandler<Key, JobMsg>> = Arc::new(Discards(world.clone()));
+        let _ = f.cast(FactoryMessage::UpdateSettings(UpdateSettingsRequest::builder().discard_handler(Some(h)).build()));
+        vsched::quiesce();
+    }
     let mut next_id = 1u32;
     let mut jobs: Vec<Submitted> = Vec::new();
     let mut history = Vec::new();
@@ -869,10 +887,10 @@ pub fn plan(property: &'static str, tier: &str) -> Plan {
                 // the big ones are split by their first event (each of them then shards by its next choice):
                 // the subtrees below the first event are very uneven in size
                 for first in ["D0", "D1", "R1", "R3", "DR", "K0", "K1"] {
-                    cfgs.push((Cfg { routing: r, discard: *d, workers: 2, depth, ttl: false, lean: false, burst: false, queue: QueueKind::Default, set_limit: false, flow_only: false, fine_deaths: false, script: Some(first), slow_stops: false }, bound));
+                    cfgs.push((Cfg { routing: r, discard: *d, workers: 2, depth, ttl: false, lean: false, burst: false, queue: QueueKind::Default, set_limit: false, flow_only: false, fine_deaths: false, script: Some(first), slow_stops: false, late_handler: false }, bound));
                 }
             } else {
-                cfgs.push((Cfg { routing: r, discard: *d, workers: 2, depth, ttl: false, lean: false, burst: false, queue: QueueKind::Default, set_limit: false, flow_only: false, fine_deaths: false, script: None, slow_stops: false }, bound));
+                cfgs.push((Cfg { routing: r, discard: *d, workers: 2, depth, ttl: false, lean: false, burst: false, queue: QueueKind::Default, set_limit: false, flow_only: false, fine_deaths: false, script: None, slow_stops: false, late_handler: false }, bound));
             }
         }
     }
@@ -887,15 +905,15 @@ pub fn plan(property: &'static str, tier: &str) -> Plan {
                 continue;
             }
         }
-        cfgs.push((Cfg { routing: r, discard: Discard::None, workers: 2, depth: if thorough { 6 } else { 5 }, ttl: false, lean: true, burst: false, queue: QueueKind::Default, set_limit: false, flow_only: false, fine_deaths: false, script: None, slow_stops: false }, 0));
+        cfgs.push((Cfg { routing: r, discard: Discard::None, workers: 2, depth: if thorough { 6 } else { 5 }, ttl: false, lean: true, burst: false, queue: QueueKind::Default, set_limit: false, flow_only: false, fine_deaths: false, script: None, slow_stops: false, late_handler: false }, 0));
     }
     // bursts: requests that sit in the factory's mailbox together (a resize right behind a resize, a
     // dispatch right behind a drain request, ...), so the factory handles the second before the workers
     // reacted to the first
     for r in [Routing::Queuer, Routing::KeyPersistent, Routing::Sticky, Routing::RoundRobin] {
-        cfgs.push((Cfg { routing: r, discard: Discard::None, workers: 2, depth: if thorough { 5 } else { 4 }, ttl: false, lean: true, burst: true, queue: QueueKind::Default, set_limit: false, flow_only: false, fine_deaths: false, script: None, slow_stops: false }, 0));
+        cfgs.push((Cfg { routing: r, discard: Discard::None, workers: 2, depth: if thorough { 5 } else { 4 }, ttl: false, lean: true, burst: true, queue: QueueKind::Default, set_limit: false, flow_only: false, fine_deaths: false, script: None, slow_stops: false, late_handler: false }, 0));
         if property == "C15" {
-            cfgs.push((Cfg { routing: r, discard: Discard::Newest(1), workers: 2, depth: if thorough { 4 } else { 3 }, ttl: false, lean: true, burst: true, queue: QueueKind::Default, set_limit: false, flow_only: false, fine_deaths: false, script: None, slow_stops: false }, 0));
+            cfgs.push((Cfg { routing: r, discard: Discard::Newest(1), workers: 2, depth: if thorough { 4 } else { 3 }, ttl: false, lean: true, burst: true, queue: QueueKind::Default, set_limit: false, flow_only: false, fine_deaths: false, script: None, slow_stops: false, late_handler: false }, 0));
         }
     }
     // the priority queue (factory-queued routing only: worker queues are plain FIFOs): urgent key b
@@ -905,7 +923,7 @@ pub fn plan(property: &'static str, tier: &str) -> Plan {
             if property != "C15" && d != Discard::None && !thorough {
                 continue;
             }
-            cfgs.push((Cfg { routing: r, discard: d, workers: 1, depth: if thorough { 6 } else { 4 }, ttl: false, lean: true, burst: false, queue: q, set_limit: false, flow_only: false, fine_deaths: false, script: None, slow_stops: false }, 0));
+            cfgs.push((Cfg { routing: r, discard: d, workers: 1, depth: if thorough { 6 } else { 4 }, ttl: false, lean: true, burst: false, queue: q, set_limit: false, flow_only: false, fine_deaths: false, script: None, slow_stops: false, late_handler: false }, 0));
         }
     }
     // plain job flow with three keys, longer: several same-key jobs waiting while every worker is busy
@@ -913,17 +931,17 @@ pub fn plan(property: &'static str, tier: &str) -> Plan {
         if !thorough && !(matches!(r, Routing::Sticky | Routing::KeyPersistent) || property == "C13") {
             continue;
         }
-        cfgs.push((Cfg { routing: r, discard: Discard::None, workers: 2, depth: if thorough { 8 } else { 6 }, ttl: false, lean: true, burst: false, queue: QueueKind::Default, set_limit: false, flow_only: true, fine_deaths: false, script: None, slow_stops: false }, 0));
+        cfgs.push((Cfg { routing: r, discard: Discard::None, workers: 2, depth: if thorough { 8 } else { 6 }, ttl: false, lean: true, burst: false, queue: QueueKind::Default, set_limit: false, flow_only: true, fine_deaths: false, script: None, slow_stops: false, late_handler: false }, 0));
     }
     // a leaky-bucket rate limiter in front of the router; the history may let 150 ms pass (refill to the cap)
     for r in [Routing::RlQueuer, Routing::RlKeyPersistent] {
-        cfgs.push((Cfg { routing: r, discard: Discard::None, workers: 2, depth: if thorough { 6 } else { 5 }, ttl: false, lean: true, burst: false, queue: QueueKind::Default, set_limit: false, flow_only: false, fine_deaths: false, script: None, slow_stops: false }, 0));
+        cfgs.push((Cfg { routing: r, discard: Discard::None, workers: 2, depth: if thorough { 6 } else { 5 }, ttl: false, lean: true, burst: false, queue: QueueKind::Default, set_limit: false, flow_only: false, fine_deaths: false, script: None, slow_stops: false, late_handler: false }, 0));
     }
     // a worker dies right after it reported completion, at the granularity of the factory's own channel
     // operations (worker-queued routing: the next job of its queue is dispatched while it is going down)
     if property != "C14" || thorough {
         for r in [Routing::KeyPersistent, Routing::RoundRobin] {
-            cfgs.push((Cfg { routing: r, discard: Discard::None, workers: 1, depth: 4, ttl: false, lean: true, burst: false, queue: QueueKind::Default, set_limit: false, flow_only: false, fine_deaths: true, script: None, slow_stops: false }, if thorough { 3 } else { 2 }));
+            cfgs.push((Cfg { routing: r, discard: Discard::None, workers: 1, depth: 4, ttl: false, lean: true, burst: false, queue: QueueKind::Default, set_limit: false, flow_only: false, fine_deaths: true, script: None, slow_stops: false, late_handler: false }, if thorough { 3 } else { 2 }));
         }
     }
     // scripted histories: a worker is killed from inside the factory's own handler (in the callback that
@@ -931,7 +949,7 @@ pub fn plan(property: &'static str, tier: &str) -> Plan {
     for r in [Routing::KeyPersistent, Routing::RoundRobin] {
         for script in ["D1,D0,D1,A,ARM0,C0", "D1,D0,D1,A,DR,ARM0,C0", "D1,D0,D1,D1,A,ARM0,C0,C0"] {
             cfgs.push((
-                Cfg { routing: r, discard: Discard::None, workers: 1, depth: script.split(',').count(), ttl: true, lean: true, burst: false, queue: QueueKind::Default, set_limit: false, flow_only: false, fine_deaths: false, script: Some(script), slow_stops: false },
+                Cfg { routing: r, discard: Discard::None, workers: 1, depth: script.split(',').count(), ttl: true, lean: true, burst: false, queue: QueueKind::Default, set_limit: false, flow_only: false, fine_deaths: false, script: Some(script), slow_stops: false, late_handler: false },
                 if thorough { 2 } else { 1 },
             ));
         }
@@ -943,7 +961,7 @@ pub fn plan(property: &'static str, tier: &str) -> Plan {
                 if d == Discard::None && property == "C15" {
                     continue;
                 }
-                cfgs.push((Cfg { routing: r, discard: d, workers: 1, depth: if thorough { 5 } else { 4 }, ttl: false, lean: true, burst: false, queue: QueueKind::Default, set_limit: false, flow_only: false, fine_deaths: false, script: None, slow_stops: true }, 0));
+                cfgs.push((Cfg { routing: r, discard: d, workers: 1, depth: if thorough { 5 } else { 4 }, ttl: false, lean: true, burst: false, queue: QueueKind::Default, set_limit: false, flow_only: false, fine_deaths: false, script: None, slow_stops: true, late_handler: false }, 0));
             }
         }
     }
@@ -951,13 +969,23 @@ pub fn plan(property: &'static str, tier: &str) -> Plan {
     if property == "C15" || thorough {
         for r in [Routing::Queuer, Routing::KeyPersistent] {
             for d in [Discard::Newest(1), Discard::Oldest(1)] {
-                cfgs.push((Cfg { routing: r, discard: d, workers: 1, depth: if thorough { 6 } else { 5 }, ttl: false, lean: true, burst: false, queue: QueueKind::Default, set_limit: true, flow_only: false, fine_deaths: false, script: None, slow_stops: false }, 0));
+                cfgs.push((Cfg { routing: r, discard: d, workers: 1, depth: if thorough { 6 } else { 5 }, ttl: false, lean: true, burst: false, queue: QueueKind::Default, set_limit: true, flow_only: false, fine_deaths: false, script: None, slow_stops: false, late_handler: false }, 0));
             }
         }
     }
     // TTL expiry with time advancing
     for r in [Routing::Queuer, Routing::KeyPersistent] {
-        cfgs.push((Cfg { routing: r, discard: Discard::None, workers: 1, depth: if thorough { 5 } else { 4 }, ttl: true, lean: false, burst: false, queue: QueueKind::Default, set_limit: false, flow_only: false, fine_deaths: false, script: None, slow_stops: false }, 0));
+        cfgs.push((Cfg { routing: r, discard: Discard::None, workers: 1, depth: if thorough { 5 } else { 4 }, ttl: true, lean: false, burst: false, queue: QueueKind::Default, set_limit: false, flow_only: false, fine_deaths: false, script: None, slow_stops: false, late_handler: false }, 0));
+    }
+    // the discard handler is replaced through UpdateSettings before the first event: expiry in the shared
+    // queue, in a worker's own queue (key-bound and sticky routing) and load shedding reach the new one
+    if property == "C13" || thorough {
+        for r in [Routing::Sticky, Routing::Queuer, Routing::KeyPersistent] {
+            cfgs.push((Cfg { routing: r, discard: Discard::None, workers: 1, depth: if thorough { 5 } else { 4 }, ttl: true, lean: false, burst: false, queue: QueueKind::Default, set_limit: false, flow_only: false, fine_deaths: false, script: None, slow_stops: false, late_handler: true }, 0));
+        }
+        for r in [Routing::Sticky, Routing::KeyPersistent] {
+            cfgs.push((Cfg { routing: r, discard: Discard::Oldest(1), workers: 2, depth: 4, ttl: false, lean: true, burst: false, queue: QueueKind::Default, set_limit: false, flow_only: false, fine_deaths: false, script: None, slow_stops: false, late_handler: true }, 0));
+        }
     }
     let mut units = Vec::new();
     for (cfg, bound) in cfgs {
